@@ -351,7 +351,8 @@ class Hub:
         self.seq = 0
         # Byzantine switches (C08)
         self.proof_mut = {}                         # txid -> mutation spec dict
-        self.height_shift = {}                      # txid -> delta reported in histories / proofs
+        self.height_shift = {}                      # txid -> delta reported in histories AND in the proof dict
+        self.hist_shift = {}                        # txid -> delta reported in histories only (proof dict stays true)
         self.raw_mut = {}                           # txid -> alteration spec
         self.served_merkle = {}                     # txid -> last merkle dict served
         self.served_raw = {}                        # txid -> last raw bytes served
@@ -479,6 +480,26 @@ class Hub:
         self.blocks.append(blk)
         return blk
 
+    def mine_synthetic(self, rng, count):
+        """`count` linked blocks without transaction lists (Merkle root = hash of a label): cheap filler for
+        long chains; nothing in them can be fetched or proven."""
+        prev = dsha256(self.blocks[-1].header) if self.blocks else b'\x00' * 32
+        salt = rng.getrandbits(64).to_bytes(8, 'big')
+        for _ in range(count):
+            height = len(self.blocks)
+            blk = Block()
+            blk.height = height
+            blk.txids = []
+            blk.leaves = []
+            blk.root = dsha256(b'synthetic block %d ' % height + salt)
+            blk.header = make_header(1, prev, blk.root, b'\x00' * 32, 1_700_000_000 + 150 * height, 0x207fffff, height)
+            prev = dsha256(blk.header)
+            self.blocks.append(blk)
+
+    def chunk_checkpoint(self, start, count=1000):
+        """Checkpoint value of headers [start, start+count): display-order hex of the double-SHA256 of the chunk."""
+        return dsha256(b''.join(b.header for b in self.blocks[start:start + count]))[::-1].hex()
+
     # ---- index ---------------------------------------------------------------------------------------
     def _mempool_height(self, tx):
         for i in tx.ins:
@@ -500,7 +521,7 @@ class Hub:
             mem.sort(key=lambda t: t.txid)
         else:
             mem.sort(key=lambda t: t.seq)
-        out = [(t.txid, t.height + self.height_shift.get(t.txid, 0)) for t in conf]
+        out = [(t.txid, t.height + self.height_shift.get(t.txid, 0) + self.hist_shift.get(t.txid, 0)) for t in conf]
         out += [(t.txid, self._mempool_height(t)) for t in mem]
         return out
 
@@ -540,7 +561,7 @@ class Hub:
         spec = self.proof_mut.get(txid)
         if spec is not None and 'merkle' in m:
             m = self.mutate_proof(txid, m, spec)
-        if txid in self.height_shift and 'merkle' in m:
+        if txid in self.height_shift and 'merkle' in m and isinstance(m.get('block_height'), int):
             m['block_height'] += self.height_shift[txid]
         self.served_merkle[requested] = m
         return m
@@ -581,6 +602,35 @@ class Hub:
         elif kind == 'empty_branch':
             m['merkle'] = []
             m['pos'] = 0 if spec.get('zero_pos', True) else m['pos']
+        elif kind == 'dict_height_only':
+            # genuine branch/pos, only the dict's own block_height field lies
+            m['block_height'] = m['block_height'] + int(spec.get('delta', 1))
+        elif kind == 'dict_other_block':
+            # dict names another block and carries a branch that is genuine for THAT block
+            real = [b.height for b in self.blocks if b.txids and b.height != tx.height]
+            if real:
+                want = tx.height + int(spec.get('delta', 1))
+                h2 = min(real, key=lambda h: (abs(h - want), h))
+                blk2 = self.blocks[h2]
+                j = min(tx.pos, len(blk2.txids) - 1)
+                m['merkle'] = [h[::-1].hex() for h in merkle_branch(blk2.leaves, j)]
+                m['pos'] = j
+                m['block_height'] = h2
+        elif kind == 'dict_height_type':
+            how = spec.get('how', 'missing')
+            h = m['block_height']
+            if how == 'missing':
+                del m['block_height']
+            elif how == 'string':
+                m['block_height'] = str(h)
+            elif how == 'negative':
+                m['block_height'] = -h
+            elif how == 'none':
+                m['block_height'] = None
+            elif how == 'huge':
+                m['block_height'] = 10 ** 9
+            elif how == 'zero':
+                m['block_height'] = 0
         return m
 
     def raw_for(self, txid):
@@ -827,13 +877,14 @@ class WalletSync:
         loop.set_task_factory(factory)
 
     # ---- lifecycle -------------------------------------------------------------------------------------
-    async def open(self):
+    async def open(self, headers=True):
         from lbry.wallet.wallet import Wallet
         from lbry.wallet.account import Account
         from lbry.wallet.bip32 import PrivateKey
         sc = self.scenario
         await self.db.open()
-        await self.headers.open()
+        if headers:
+            await self.open_headers()
         seed = int(sc.get('wallet_seed', 1)).to_bytes(32, 'big')
         root = PrivateKey.from_seed(self.ledger, seed)
         self.wallet = Wallet()
@@ -845,6 +896,18 @@ class WalletSync:
                                   'receiving': {'gap': self.recv_gap, 'maximum_uses_per_address': 1},
                                   'change': {'gap': self.change_gap, 'maximum_uses_per_address': 1}}})
         self.gaps = {0: self.recv_gap, 1: self.change_gap}
+
+    async def open_headers(self, checkpoints=None):
+        """Open the header store.  With `checkpoints` ({chunk start: hash}) it is a checkpointed store whose chunks
+        are not back-filled yet (Headers.open zero-fills it) and on-demand fetching is wired to the hub exactly
+        as Ledger.initial_headers_sync does."""
+        if checkpoints:
+            self.headers.checkpoints = dict(checkpoints)
+        await self.headers.open()
+        if checkpoints:
+            from functools import partial
+            self.headers.chunk_getter = partial(self.network.retriable_call, self.network.get_headers,
+                                                count=1000, b64=True)
 
     def start(self):
         """What Ledger.join_network does: subscribe the accounts as an update task."""
